@@ -1,10 +1,276 @@
-// Package c06 holds the runtime monitors for property C06 (see DESIGN.md section 4).
+// Package c06 holds the runtime monitors for property C06 (see DESIGN.md
+// section 4): no ECAL program, sink attribute or event can crash the host.
+//
+// Every case is a piece of hostile ECAL source (or a sink declaration, or an
+// event) executed against the real interpreter and engine of /repo. The
+// oracles are written from the property statement only:
+//
+//   - no panic reaches the harness (core.Guard around Parse, Validate, Eval,
+//     and around the work a pool worker does for an event);
+//   - the child process survives (progress slot before every case; the driver
+//     turns a death into a verdict naming the case);
+//   - the pool did not lose a worker;
+//   - an error raised by X inside `try { X } except e { hx.rec(e.type) }` is
+//     seen by the except clause: hx.rec is called once, no error comes back;
+//   - a failing sink fails only its own invocation: its error is filed under
+//     its own name and a second, harmless event is processed afterwards.
+//
+// Everything runs on one harness goroutine per child process: the parser of
+// /repo is not re-entrant (a C13 matter), so cases are not run in parallel
+// inside a process; the driver runs 16 processes side by side.
 package c06
 
-import "verif/harness/core"
+import (
+	"fmt"
+	"os"
+	"runtime/debug"
+	"sort"
+	"strings"
+
+	"github.com/krotik/ecal/engine"
+	"github.com/krotik/ecal/interpreter"
+
+	"verif/harness/core"
+)
 
 func init() { core.Register("C06", Run) }
 
+type harness struct {
+	c *core.Ctx
+}
+
+func trunc(s string, n int) string {
+	if len(s) > n {
+		return s[:n] + "..."
+	}
+	return s
+}
+
+func (h *harness) violation(key, what, stream string, idx int, src string, extra map[string]interface{}) {
+	d := map[string]interface{}{"source": src}
+	for k, v := range extra {
+		d[k] = v
+	}
+	h.c.Violation(key, what, stream, idx, d)
+}
+
+func (h *harness) account(class string, o outcome) {
+	switch {
+	case o.panicked:
+		h.c.Event(class+".panic", 1)
+	case o.err != nil:
+		h.c.Event(class+"."+o.stage+"-error", 1)
+	default:
+		h.c.Event(class+".value", 1)
+	}
+}
+
+// checkX runs the piece of code x (after the preamble pre) bare, then - if it
+// failed with an ordinary error during evaluation - inside try/except, and
+// optionally as the body of a sink.
+func (h *harness) checkX(stream string, idx int, pre, x string, withSink bool, workers int) {
+	c := h.c
+	c.Begin(0, stream, idx, pre+x)
+	defer c.End(0)
+
+	e := newEnv(1)
+	o := e.eval(pre + x)
+	e.close()
+	h.account("bare", o)
+	if o.panicked {
+		h.violation(o.key, "panic reached the host during "+o.stage+": "+firstLine(o.msg), stream, idx, x,
+			map[string]interface{}{"preamble": pre, "panic": trunc(o.msg, 1500)})
+		return
+	}
+	if idx%977 == 3 {
+		c.Sample(stream, map[string]interface{}{"source": x, "value": trunc(fmt.Sprint(o.val), 80), "error": fmt.Sprint(o.err)})
+	}
+	if o.failedAtEval() {
+		c.Nontrivial(core.Hash64("fail|" + pre + x))
+		if !protocolError(o.err) {
+			h.tryOracle(stream, idx, pre, x, o)
+		} else {
+			c.Event("try.skipped-control-signal", 1)
+		}
+	}
+	if withSink && (o.stage == "eval" || o.stage == "ok") {
+		h.sinkOracle(stream, idx, pre, x, workers)
+	}
+}
+
+func firstLine(s string) string {
+	if i := strings.Index(s, "\n"); i >= 0 {
+		return s[:i]
+	}
+	return s
+}
+
+func (h *harness) tryOracle(stream string, idx int, pre, x string, bare outcome) {
+	c := h.c
+	e := newEnv(1)
+	src := pre + "try {\n" + x + "\n} except e {\n hx.rec(\"c06caught:\", e.type)\n}\n"
+	o := e.eval(src)
+	all := e.rec.snapshot()
+	e.close()
+	var calls []string
+	for _, s := range all {
+		if strings.HasPrefix(s, "c06caught:") {
+			calls = append(calls, s)
+		}
+	}
+	switch {
+	case o.panicked:
+		c.Event("try.panic", 1)
+		h.violation(o.key, "panic reached the host while an except clause was handling the error of X: "+firstLine(o.msg), stream, idx, x,
+			map[string]interface{}{"wrapped": src, "bare_error": bare.err.Error(), "panic": trunc(o.msg, 1500)})
+	case o.err != nil:
+		c.Event("try.missed", 1)
+		h.violation("try-miss:"+errType(o.err), "an error raised inside try was not handled by the catch-all except clause", stream, idx, x,
+			map[string]interface{}{"wrapped": src, "bare_error": bare.err.Error(), "wrapped_error": o.err.Error(), "stage": o.stage})
+	case len(calls) != 1:
+		c.Event("try.wrong-handler-count", 1)
+		h.violation("try-handler-count", fmt.Sprintf("X fails when evaluated bare but the except clause around it ran %d times", len(calls)), stream, idx, x,
+			map[string]interface{}{"wrapped": src, "bare_error": bare.err.Error(), "rec_calls": all})
+	default:
+		c.Event("try.caught", 1)
+	}
+}
+
+const sinkS2 = "sink s2\n kindmatch [\"c06.y\"]\n{\n hx.rec(\"s2\")\n}\n"
+
+// sinkS0 is a harmless sink on the same kind as the sink under test; it runs
+// first (priority 0 before 10), so a failure of s1 must not be filed under s0
+// and must not undo s0's run.
+const sinkS0 = "sink s0\n kindmatch [\"c06.x\"]\n priority 0\n{\n hx.rec(\"s0\")\n}\n"
+
+// sinkOracle declares a sink whose body is x, sends it an event and then
+// sends a second event to a harmless sink.
+func (h *harness) sinkOracle(stream string, idx int, pre, x string, workers int) {
+	c := h.c
+	e := newEnv(workers)
+	defer e.close()
+	src := pre + sinkS2 + sinkS0 + "sink s1\n kindmatch [\"c06.x\"]\n priority 10\n{\n" + x + "\n}\n"
+	o := e.eval(src)
+	if o.panicked {
+		c.Event("sink.decl.panic", 1)
+		h.violation(o.key, "panic while declaring a sink: "+firstLine(o.msg), stream, idx, src, map[string]interface{}{"panic": trunc(o.msg, 1500)})
+		return
+	}
+	if o.err != nil {
+		c.Event("sink.decl.error", 1)
+		return
+	}
+	h.fireBoth(stream, idx, src, e,
+		engine.NewEvent("e1", []string{"c06", "x"}, map[interface{}]interface{}{"k": 1.0}), true)
+}
+
+// fireBoth sends ev to the processor of e and afterwards the harmless event
+// e2 (kind c06.y, handled by sink s2), and applies the event oracles.
+// mustTrigger: the harness knows that a sink named s1 matches ev.
+func (h *harness) fireBoth(stream string, idx int, src string, e *env, ev *engine.Event, mustTrigger bool) {
+	c := h.c
+	detail := func(fr fireResult) map[string]interface{} {
+		return map[string]interface{}{"event": ev.String(), "workers": e.workers, "where": fr.where, "panic": trunc(fr.msg, 1500)}
+	}
+	s0before := e.rec.count("s0")
+	fr := e.fire(ev)
+	if !fr.panicked && !fr.skipped && strings.Contains(src, sinkS0) {
+		if n := e.rec.count("s0") - s0before; n != 2 { // pre-flight + pool
+			h.violation("neighbour-sink-lost", fmt.Sprintf("the harmless sink s0 on the same event ran %d times instead of once per processing", n), stream, idx, src,
+				map[string]interface{}{"event": ev.String(), "errors": fr.ruleErrs})
+		}
+	}
+	if fr.panicked {
+		c.Event("event.panic."+fr.where, 1)
+		what := "panic inside the work a pool worker does for an event (no recover there: the process dies): "
+		if fr.where == "addevent" {
+			what = "panic reached the host from AddEventAndWait: "
+		}
+		h.violation(fr.key, what+firstLine(fr.msg), stream, idx, src, detail(fr))
+		return
+	}
+	c.Event(fmt.Sprintf("event.processed.w%d", e.workers), 1)
+	if fr.skipped {
+		c.Event("event.skipped", 1)
+		if mustTrigger {
+			c.Inconclusive("event for sink s1 was skipped by the engine (matching is C01's business)", stream, idx, map[string]interface{}{"source": src, "event": ev.String()})
+		}
+	}
+	var wrong []string
+	for k := range fr.ruleErrs {
+		if k != "s1" {
+			wrong = append(wrong, k)
+		}
+	}
+	if len(wrong) > 0 {
+		sort.Strings(wrong)
+		h.violation("sink-error-misfiled", "the error of sink s1 was filed under another sink: "+strings.Join(wrong, ","), stream, idx, src,
+			map[string]interface{}{"event": ev.String(), "errors": fr.ruleErrs})
+	}
+	if len(fr.ruleErrs) > 0 {
+		c.Event("sink.failed", 1)
+		c.Nontrivial(core.Hash64("sinkfail|" + src))
+	} else if !fr.skipped {
+		c.Event("sink.ok", 1)
+	}
+	if !fr.workersOK {
+		h.violation("worker-lost", fmt.Sprintf("the pool has %d workers after the event, %d were configured", fr.workers, e.workers), stream, idx, src, detail(fr))
+		return
+	}
+	before := e.rec.count("s2")
+	fr2 := e.fire(engine.NewEvent("e2", []string{"c06", "y"}, map[interface{}]interface{}{}))
+	after := e.rec.count("s2")
+	switch {
+	case fr2.panicked:
+		h.violation(fr2.key, "panic while processing the harmless second event: "+firstLine(fr2.msg), stream, idx, src, detail(fr2))
+	case fr2.skipped || after-before != 2 || len(fr2.ruleErrs) > 0:
+		// the sink body runs once in the pre-flight and once on the pool
+		h.violation("second-event-lost", "after a (failing) sink invocation a second harmless event was not processed normally", stream, idx, src,
+			map[string]interface{}{"first_event": ev.String(), "skipped": fr2.skipped, "s2_runs": after - before, "errors": fr2.ruleErrs, "add_error": fmt.Sprint(fr2.addErr)})
+	case !fr2.workersOK:
+		h.violation("worker-lost", fmt.Sprintf("the pool has %d workers after the second event, %d were configured", fr2.workers, e.workers), stream, idx, src, detail(fr2))
+	default:
+		c.Event("second-event.ok", 1)
+	}
+}
+
 // Run is the check.
 func Run(c *core.Ctx) {
+	h := &harness{c}
+	// A runaway recursion inside ecal ends in a fatal stack overflow either way;
+	// 64 MB instead of Go's 1 GB default only makes that death quick and cheap.
+	// No generated program nests deeper than a few dozen frames.
+	debug.SetMaxStack(64 << 20)
+	c.Note("rule", "hostile inputs against Parse/Validate/Eval, sink registration and event processing of the real code: "+
+		"(a) all 19 binary and 3 prefix operators x operand pairs over an 18-value universe {null,true,0,-0,1,-1,0.5,-5,1e18,1e308,\"\",\"5\",\"a\",[],nested list,{},nested map,function} as literals and as variables, statement templates (if/for/func/raise/try/import/mutex/destructuring/new) with 1-3 holes over the universe, seeded random expressions of depth<=4; "+
+		"(b) every entry of interpreter.InbuildFuncMap plus log/error/debug x all argument vectors of length 0..3 (exhaustive) and random vectors of length 4, bare, inside try/except and as a sink body (sleep/setPulseTrigger/setCronTrigger: numeric first arguments mapped to <=1000 microseconds / a never-firing cron spec); "+
+		"(c) sink attributes kindmatch/scopematch/statematch/priority/suppresses with every universe value (plain, list-wrapped, map-wrapped), duplicates, missing attributes, then events; "+
+		"(d) statematch value x event state value over the universe squared, events sent by addEvent, addEventAndWait and by engine.NewEvent+Processor.AddEventAndWait, on 1 and 4 workers; "+
+		"(d2) failing sink bodies (raise with 0..3 universe arguments, operator errors, return/break/continue, imports, paths into the event) whose errors come back through addEventAndWait/addEvent; (e) access paths: 7 containers x read/write forms x 26 index values (universe + fractional/negative/huge/string indices). "+
+		"Non-trivial = distinct source texts whose real execution took a failure path (error value returned, error caught by except, sink invocation failed) or that went through the pool. "+
+		"Excluded: user-written non-termination, interpolation edge cases (C14), whether except sees return/break/iterator signals (C04).")
+	names := builtinNames()
+	c.Event("builtins.enumerated", int64(len(names)))
+	_ = interpreter.InbuildFuncMap
+	// VH_C06_STREAMS=name,name restricts the run to some stream families (a
+	// debugging aid; no registered command sets it)
+	filter := os.Getenv("VH_C06_STREAMS")
+	run := func(name string, f func()) {
+		if filter == "" || strings.Contains(","+filter+",", ","+name+",") {
+			f()
+		}
+	}
+	run("cyclic", h.streamCyclic)
+	run("binops", h.streamBinops)
+	run("unary", h.streamUnary)
+	run("templates", h.streamTemplates)
+	run("paths", h.streamPaths)
+	run("sinkattrs", h.streamSinkAttrs)
+	run("statematch", h.streamStateMatch)
+	run("sinkfail", h.streamSinkFail)
+	run("builtins", func() { h.streamBuiltins(names) })
+	run("random", h.streamRandom)
+	if n := nudges; n > 0 {
+		c.Event("harness.nudges", n)
+	}
 }
